@@ -147,6 +147,7 @@ Proof.
   - cbn; tauto.
   - cbn; tauto.
   - cbn; tauto.
+  - cbn; tauto.
   - cbn [fst dst_heap dst_refs dst_type]. tauto.
   - cbn; tauto.
 Qed.
@@ -201,6 +202,19 @@ Lemma readonly_changes_nothing st o : dop_readonly o = true ->
   dst_heap (fst (dstep lc st o)) = dst_heap st /\ dst_refs (fst (dstep lc st o)) = dst_refs st /\
   dcontent (fst (dstep lc st o)) = dcontent st.
 Proof. destruct o; try discriminate; intros _; repeat split. Qed.
+
+(* a refused add_delegations call: what stays behind is a prefix of its arguments, nothing else changed *)
+Lemma dadd_residue h ty ks : forall refs, exists pre post, ks = pre ++ post /\ fst (dadd h ty refs ks) = refs ++ pre.
+Proof.
+  induction ks as [|k r IH]; intro refs.
+  - exists [], []. split; [reflexivity|]. cbn. rewrite app_nil_r. reflexivity.
+  - cbn [dadd]. destruct (nth_error h k) as [d|].
+    + destruct (add_delegation (mkDs ty (dderef h refs)) d).
+      * destruct (IH (refs ++ [k])) as (pre & post & E & R). exists (k :: pre), post. split; [simpl; congruence|].
+        rewrite R, <- app_assoc. reflexivity.
+      * exists [], (k :: r). split; [reflexivity|]. cbn. rewrite app_nil_r. reflexivity.
+    + exists [], (k :: r). split; [reflexivity|]. cbn. rewrite app_nil_r. reflexivity.
+Qed.
 
 (* remove_by_id: afterwards the id is gone and every other delegation is still there, in order *)
 Lemma remove_by_id_spec st id :
